@@ -46,7 +46,7 @@ def run(ctx):
         if not m or int(m.group(1)) != v:
             import vfcore
             raise vfcore.HarnessError('generator limit %s=%d differs from the build (%s)' % (k, v, m.group(1) if m else 'undefined'))
-    n = int(os.environ.get('VF_C24_N', 5000 if thorough else 110))      # VF_C24_N: scratch trials only
+    n = int(os.environ.get('VF_C24_N', 2500 if thorough else 110))      # VF_C24_N: scratch trials only
     cases = []
     for i in range(n):
         seed = ctx.seed * 100003 + i
